@@ -15,15 +15,16 @@ func init() {
 		Title:       "Ending a tunnel releases the backend connection and all per-tunnel resources",
 		DesignRef:   "DESIGN.md §3 C11",
 		Technique:   "acquire/release pairing on all exits over go/ssa (deferred releases count from the defer statement on; marker reachability from the acquire to every return), with resources stored in Tunnel fields followed to the owner scope (the handler that runs the packet loop)",
-		LevelText:   "Static: the backend connection stored in Tunnel.rwc by the dial is closed by a deferred function of the packet loop that is registered before the dial and closes whenever the field is non-nil; the websocket connection and transport, the legacy IN connection and — when the IN leg's packet loop ends — the legacy OUT transport are closed on every exit after they were obtained; every RegisterTunnel is followed on all exits by RemoveTunnel of the same tunnel; every gauge increment is matched by a decrement of the same gauge on all exits; the relay goroutine reads exactly the connection that the deferred close closes and ends on its read error. Decides that each release is on every path; 'within a bounded time' and that Close interrupts a blocked read are library/timing facts.",
+		LevelText:   "Static: the backend connection stored in Tunnel.rwc by the dial is closed by a deferred function of the packet loop that is registered before the dial and closes whenever the field is non-nil; the websocket connection and transport, the legacy IN connection and — when the IN leg's packet loop ends — the legacy OUT transport are closed on every exit after they were obtained; every RegisterTunnel is followed on all exits by RemoveTunnel of the same tunnel; every gauge increment is matched by a decrement of the same gauge on all exits; the relay goroutine reads exactly the connection that the deferred close closes and ends on its read error; the framer gives up (error, which ends the packet loop) when a joined fragment still does not frame, or keeps collecting only below a constant bound on the client-declared size. Decides that each release is on every path; 'within a bounded time' and that Close interrupts a blocked read are library/timing facts.",
 		LevelNote:   "Trusted: net.Conn.Close unblocks a pending Read; defers run on every exit including panics. Not decided: timing, go-cache expiry of legacy tunnel entries.",
-		Explanation: "Each rule names an acquire site and a release predicate; a return reachable from the acquire without executing the release call or a defer of it is a violation. C11/backend additionally analyses the deferred closure of Process (close whenever rwc != nil) and ties the relay goroutine's connection to Tunnel.rwc.",
+		Explanation: "Each rule names an acquire site and a release predicate; a return reachable from the acquire without executing the release call or a defer of it is a violation. C11/backend additionally analyses the deferred closure of Process (close whenever rwc != nil) and ties the relay goroutine's connection to Tunnel.rwc. C11/framer-bounded cuts the edges that test a constant size bound and asks whether ReadPacket is reachable again from the failure edge of the continuation readHeader.",
 		Assumptions: []string{"a panic in the handler still runs the deferred releases (Go semantics)"},
 		Rules: []RuleDef{
 			{"C11/backend", "Tunnel.rwc closed by a defer registered before the dial, whenever non-nil; forward reads that same connection", c11Backend},
 			{"C11/client-transports", "websocket conn + transport, legacy IN conn, and legacy OUT transport closed on all exits", c11ClientTransports},
 			{"C11/registry", "RegisterTunnel paired with RemoveTunnel of the same tunnel on all exits", c11Registry},
 			{"C11/gauges", "every gauge Inc paired with Dec of the same gauge on all exits", c11Gauges},
+			{"C11/framer-bounded", "unframeable bytes end the packet loop: no unbounded wait for a client-declared size", c11FramerBounded},
 		},
 	})
 }
@@ -519,4 +520,77 @@ func returnsResultOf(helper *ssa.Function, call *ssa.Call, idx int) bool {
 		}
 	}
 	return true
+}
+
+// c11FramerBounded: unframeable bytes end the tunnel. In readMessage, once a read has been joined to
+// a pending fragment and the result still does not frame, the framer must give up (error return ends
+// the packet loop and with it the tunnel) — or keep collecting only below a constant bound on the
+// declared size. Waiting for as many bytes as the client's own length field announces lets a client
+// that sends junk keep the backend connection, both goroutines, the registry entry and the gauge
+// for as long as it likes.
+func c11FramerBounded(c *Ctx) {
+	rule := "C11/framer-bounded"
+	fn := c.Fn("cmd/rdpgw/protocol", "readMessage")
+	var rp *ssa.Call
+	for _, ci := range callsIn(fn) {
+		if ci.Common().IsInvoke() && ci.Common().Method.Name() == "ReadPacket" {
+			rp, _ = ci.(*ssa.Call)
+		}
+	}
+	if rp == nil {
+		c.Missing("ReadPacket call in readMessage")
+	}
+	n := 0
+	for _, ci := range callsTo(fn, protoPkg+".readHeader") {
+		rh := ci.(*ssa.Call)
+		// the continuation attempt: its argument is built by append (pending fragment + new read)
+		isCont := false
+		for _, o := range origins(arg(rh, 0)) {
+			if o.Kind == "call" {
+				if b, ok := o.Call.Common().Value.(*ssa.Builtin); ok && b.Name() == "append" {
+					isCont = true
+				}
+			}
+		}
+		if !isCont {
+			continue
+		}
+		n++
+		errV := resultOf(rh, 3)
+		szV := resultOf(rh, 1)
+		// edges taken when the continuation failed to frame; from there ReadPacket must be unreachable
+		// unless a constant upper bound on the declared size was tested on the way
+		bound := GCmp(func(x ssa.Value, op token.Token, y ssa.Value) bool {
+			if sameValueModConv(x, szV) {
+				k, ok := constInt(y)
+				return ok && (op == token.LEQ || op == token.LSS) && k <= 1<<24
+			}
+			if sameValueModConv(y, szV) {
+				k, ok := constInt(x)
+				return ok && (op == token.GEQ || op == token.GTR) && k <= 1<<24
+			}
+			return false
+		})
+		loops := false
+		for _, b := range fn.Blocks {
+			if len(b.Instrs) == 0 {
+				continue
+			}
+			ifi, ok := b.Instrs[len(b.Instrs)-1].(*ssa.If)
+			if !ok || !rh.Block().Dominates(b) {
+				continue
+			}
+			for i, succ := range b.Succs {
+				if GNeq(isVal(errV), anyNil)(ifi.Cond, i == 0) {
+					if reachFromWithoutMarkerAvoiding(succ, rp, noMarker, bound) {
+						loops = true
+					}
+				}
+			}
+		}
+		c.Check(!loops, rule, "readMessage continuation#"+itoa(n), rh.Pos(), "a joined fragment that still does not frame ends the read with an error (or more is awaited only below a constant size bound)", "after a joined fragment still fails to frame, readMessage goes back to reading with no constant bound on the size the client declared: unframeable bytes never end the tunnel, nothing is released until the client closes the connection")
+	}
+	if n == 0 {
+		c.Undecided(rule, "readMessage continuation", fn.Pos(), "no readHeader call on a joined fragment found")
+	}
 }
